@@ -3,6 +3,9 @@ from __future__ import annotations
 
 from fractions import Fraction as Fr
 
+import functools
+import types as _types
+
 import z3
 
 from . import core, loader, units
@@ -36,7 +39,38 @@ class _Proxy:
         over = object.__getattribute__(self, '_over')
         if name in over:
             return over[name]
-        return getattr(object.__getattribute__(self, '_real'), name)
+        obj = getattr(object.__getattribute__(self, '_real'), name)
+        if isinstance(obj, _types.ModuleType):
+            return _Proxy(obj, {})
+        if callable(obj) and not isinstance(obj, type) and type(obj).__name__ != 'ufunc':
+            return _guarded(obj, name)
+        return obj
+
+
+def _has_symbolic(x, depth=0):
+    if type(x).__module__.split('.')[0] in ('vf', 'contracts', 'z3'):
+        return True
+    if depth < 4 and isinstance(x, (tuple, list)):
+        return any(_has_symbolic(y, depth + 1) for y in x)
+    if depth < 4 and isinstance(x, dict):
+        return any(_has_symbolic(y, depth + 1) for y in x.values())
+    return False
+
+
+def _guarded(fn, name):
+    """a numpy / math function as seen by verified code: when it refuses a symbolic stand-in, that is an engine limit (Unsupported:
+    the section is demoted to its bounded stand-in), not an exception of the code under verification"""
+    @functools.wraps(fn, assigned=('__name__', '__doc__'), updated=())
+    def call(*a, **k):
+        try:
+            return fn(*a, **k)
+        except (core.Unsupported, core.PathLimit, core.Infeasible):
+            raise
+        except Exception as e:  # noqa: BLE001
+            if _has_symbolic(a) or _has_symbolic(k):
+                raise core.Unsupported(f'{name}() of numpy/math on a symbolic operand ({type(e).__name__}: {str(e)[:80]})') from e
+            raise
+    return call
 
 
 LN2 = z3.Real('ln2')
